@@ -128,6 +128,8 @@ type State struct {
 	sub      bool  // isolated callee exploration (function-level merging)
 	retVal   Value // result of the top frame
 	ext      map[string]interface{} // engine-side per-state data (iterators etc.)
+	pubs     []pubRec               // publication log (see publish.go)
+	pubMark  int                    // objects with a larger ID were allocated after nd.PublishLogStart
 }
 
 func (st *State) clone() *State {
@@ -154,6 +156,8 @@ func (st *State) clone() *State {
 	n.syms = append([]*Term(nil), st.syms...)
 	n.reached = append([]string(nil), st.reached...)
 	n.observed = append([]string(nil), st.observed...)
+	n.pubs = append([]pubRec(nil), st.pubs...)
+	n.pubMark = st.pubMark
 	return n
 }
 
